@@ -10,3 +10,26 @@ Definition c20_keepm := keepm.
 Definition c20_accepts_mask := accepts_mask.
 Definition c20_trim_mask (P : pkg) : list bool := trim_pass_mask [] P.
 Definition c20_trim_model := trim_model.
+
+(* a flat fingerprint of a result tree: the extracted model and vm_compute inside Coq are
+   compared on it for a sub-sample of the cases (guards extraction and driver glue) *)
+Definition pres_bits (p : fpres) : list bool :=
+  match p with
+  | PAbsent => [false; false]
+  | POptional => [false; true]
+  | PRequired => [true; false]
+  | PRegular => [true; true]
+  end.
+
+Fixpoint res_bits (r : res) : list bool :=
+  match r with
+  | RBot => [true; false; false]
+  | RFuel => [true; false; true]
+  | RVal k a p => [false; true; false] ++ k ++ a ++ p
+  | RStruct fs o =>
+    [false; false; true] ++ flat_map (fun pr => pres_bits (fst pr) ++ res_bits (snd pr)) fs ++ o
+  end.
+
+Definition c20_fingerprint (labs : list label) (atoms : list atom) (m : list bool) (P : pkg) :=
+  (c20_accepts_mask m P, c20_trim_mask P,
+   res_bits (c20_final labs atoms 40 P), res_bits (c20_final labs atoms 40 (c20_keepm m P))).
